@@ -42,12 +42,11 @@ def main():
             hdr_rest = re.sub(r"(?m)^import\s+\S+\s*\n", "", hdr)
             text = ("\n".join(hdr_imports + lines) + "\n" + hdr_rest.replace("{NS}", "Pyrex" + kind)
                     + "\n-- ===== body (identical in both twins) =====\n" + body
-                    + "\n" + ("end\n" if kind == "R" else "") + "end Pyrex%s\n" % kind)
+                    + "\nend Pyrex%s\n" % kind + ("end\n" if kind == "R" else ""))
             write_if_changed(os.path.join(HERE, "PyrexVerif", kind, name + ".lean"), text)
         f = open(os.path.join(HERE, "PyrexVerif", "F", name + ".lean")).read().split("-- ===== body")[1]
         r = open(os.path.join(HERE, "PyrexVerif", "R", name + ".lean")).read().split("-- ===== body")[1]
-        if f.replace("end PyrexF", "").rstrip().rstrip("end").rstrip() != \
-                r.replace("end PyrexR", "").rstrip().rstrip("end").rstrip():
+        if f.split("end PyrexF")[0] != r.split("end PyrexR")[0]:
             print("twin bodies differ for", name)
             return 1
     return 0
